@@ -277,9 +277,13 @@ pub fn write_evidence(ctx: &Ctx, meta: &EvidenceMeta, stats: &Stats, violations:
     "wall_s": (ctx.wall() * 1000.0).round() / 1000.0,
     "violations": violations,
   });
-  let dir = Path::new(VERIF_ROOT).join("evidence");
+  // a property served by several binaries: each writes a part, `vf` merges them
+  let (dir, name) = match std::env::var("VERIF_EVIDENCE_PART") {
+    Ok(part) if !part.is_empty() => (Path::new(VERIF_ROOT).join("evidence").join("parts"), format!("{}-{}.json", ctx.property, part)),
+    _ => (Path::new(VERIF_ROOT).join("evidence"), format!("{}.json", ctx.property)),
+  };
   let _ = std::fs::create_dir_all(&dir);
-  let p = dir.join(format!("{}.json", ctx.property));
+  let p = dir.join(name);
   std::fs::write(&p, serde_json::to_string_pretty(&ev).unwrap()).expect("write evidence");
 }
 
